@@ -43,7 +43,7 @@ FRESH_CALLS = {
 
 
 # methods that write into their receiver (NumPy) and the trailing-underscore convention of torch
-INPLACE_METHODS = {"fill", "put", "itemset", "setfield"}
+INPLACE_METHODS = {"fill", "put", "itemset", "setfield", "sort"}
 MODULE_ROOTS = {"torch", "np", "numpy", "jnp", "jax", "eqx", "xp", "scipy", "math"}
 NOT_DATA = {"requires_grad_", "share_memory_", "retain_grad_"}
 
